@@ -32,7 +32,7 @@ Accept(e) ==
   ELSE ~e.blocked /\ e.panic = ""                                                 \* P3
 
 Step(e) ==
-  /\ ub' = IF e.a \in {"unbindl", "unbindw"} /\ ~e.skipped THEN [s \in DOMAIN ub \cup {e.s} |-> IF s = e.s THEN 0 ELSE ub[s]]
+  /\ ub' = IF e.a \in {"unbindl", "unbindm"} /\ ~e.skipped THEN [s \in DOMAIN ub \cup {e.s} |-> IF s = e.s THEN 0 ELSE ub[s]]
            ELSE IF e.a \in {"bindl", "bindm"} THEN [s \in DOMAIN ub \ {e.s} |-> ub[s]]
            ELSE Bump(e)
   /\ nclose' = nclose + (IF e.a = "close" THEN 1 ELSE 0)
